@@ -8,11 +8,7 @@ Open Scope N_scope.
 
 (* ---- words: non-empty, ASCII, no white space ---- *)
 
-Definition ws_byte (b : N) : bool := ((9 <=? b) && (b <=? 13)) || (b =? 32).
-Definition word_byte (b : N) : bool := (b <? 128) && negb (ws_byte b).
-Definition word_okb (w : list N) : bool :=
-  match w with [] => false | _ => forallb word_byte w end.
-Definition word_ok (w : list N) : Prop := word_okb w = true.
+(* [ws_byte], [word_byte], [word_okb], [word_ok] are in Model/Medit.v *)
 
 Lemma word_ok_nonempty w : word_ok w -> w <> [].
 Proof. destruct w; [discriminate|discriminate]. Qed.
